@@ -130,7 +130,8 @@ def pushdown_matters(where, triples):
     vars_ = sorted(R.in_scope(where))
     key = lambda sols: Counter(frozenset((v, R.rkey(m[v])) for v in vars_ if m.get(v) is not None) for m in sols)
     try:
-        return key(R.eval_seeded(where, ctx, {})) != key(R.eval_pattern(where, ctx))
+        spec = key(R.eval_pattern(where, ctx))
+        return any(key(R.eval_seeded(where, ctx, {}, forget=fg)) != spec for fg in (False, True))
     except (R.Latitude, R.Budget, ValueError, R.Err):
         return True
 
